@@ -150,9 +150,9 @@ def run(ctx):
                       f'traversed forwards and beyond its end', facts={'reads_lower': reads_lower})
     # ---- R3
     src = ast.unparse(va.node)
-    ok = X.has(src, 'bounds = sym.LoopRange(irange.children)') and X.has(src, 'loop = ir.Loop(variable=ivar, body=as_tuple(body), bounds=bounds)')
-    (ctx.judge('R3', 'loop bounds from the lhs range') if ok else
-     ctx.violation('R3', f'{CLS}.visit_Assignment:loop-bounds', va.where, 'the generated loop no longer takes its bounds (incl. step) from the left-hand-side range'))
+    ctx.wired('R3', f'{CLS}.visit_Assignment:loop-bounds', va.where, src,
+              ['bounds = sym.LoopRange(irange.children)', 'loop = ir.Loop(variable=ivar, body=as_tuple(body), bounds=bounds)'],
+              'the generated loop no longer takes its bounds (incl. step) from the left-hand-side range')
     upd = [n.lineno for n in ast.walk(va.node) if isinstance(n, ast.Call) and X.dotted_attr(n.func) == f'{par}._update'
            and any(k.arg == 'lhs' for k in n.keywords) and any(k.arg == 'rhs' for k in n.keywords)]
     loops = [n.lineno for n in ast.walk(va.node) if isinstance(n, ast.Call) and X.dotted_attr(n.func) == 'ir.Loop']
